@@ -311,14 +311,59 @@ def check_route_totality(idx: Index, rep: Report):
     rep.decide(not sv_ok, rule, f, top[0], text="frequency route iff noise or no statevector or shots or empty circuit",
                what="the direct statevector route is taken exactly for noiseless, exact (no shots) evaluation on a statevector backend",
                reason=f"route predicate differs on {len(sv_ok)} configuration(s), e.g. {sv_ok[0] if sv_ok else ''}")
-    # complex coefficients: real and imaginary parts evaluated separately and recombined as re + i*im
-    for fn, comb in (("get_expectation_value", "exp_real + 1j * exp_imag"), ("get_variance", "var_real + var_imag")):
+    check_complex_split(idx, rep, rule)
+
+
+class _BackendProbe:
+    """stand-in for the backend inside its own get_expectation_value / get_variance: the recursive calls and the estimator routes answer with a
+    linear (expectation) or quadratic (variance) form in per-term symbols, and remember the keyword arguments they were given"""
+    _sa_model = True
+    statevector_available = True
+    n_shots = None
+    _noise_model = None
+
+    def __init__(self):
+        self.calls = []
+
+    def _lin(self, op, circ, **kw):
+        self.calls.append(("E", circ, kw))
+        return sum((sp.nsimplify(c) * sp.Symbol("E" + repr(t), real=True) for t, c in op.terms.items()), sp.Integer(0))
+
+    def _quad(self, op, circ, **kw):
+        self.calls.append(("V", circ, kw))
+        return sum((sp.nsimplify(c) ** 2 * sp.Symbol("V" + repr(t), positive=True) for t, c in op.terms.items()), sp.Integer(0))
+    get_expectation_value = _get_expectation_value_from_frequencies = _get_expectation_value_from_statevector = _lin
+    get_variance = _get_variance_from_frequencies = _quad
+
+
+def check_complex_split(idx: Index, rep: Report, rule: str):
+    """get_expectation_value / get_variance folded on operators with complex coefficients, the backend replaced by a probe: the result must be
+    sum(coef * E_term) (resp. sum(|coef|^2 V_term)) and every inner evaluation must get the caller's circuit, initial statevector and requested outcome"""
+    from .C14 import _QOp
+    from ..rules.circuitsem import make_folder
+    t1, t2, t3 = ((0, "X"),), ((0, "Z"), (1, "Z")), ((2, "Y"),)
+    samples = [{t1: 1 + 2j, t2: 3.0, t3: -1j}, {t1: 2j}, {t1: 0.5, t2: -1.5}, {t1: (1 + 0j), t2: 0.25 + 0.75j}]
+    circ = Rec("Circuit", {"width": 4, "size": 3, "is_mixed_state": False})
+    for fn, sym, form in (("get_expectation_value", "E", lambda c: sp.nsimplify(c)), ("get_variance", "V", lambda c: sp.nsimplify(abs(c) ** 2))):
         g = idx.function(f"{BACKEND}::Backend.{fn}")
-        txt = full(g.node)
-        ok = "coef.real, coef.imag" in txt and comb.replace("1j", "1j") in txt.replace("1.0j", "1j")
-        rep.decide(ok, rule, g, g.node, text=f"{fn}: complex coefficients split into real and imaginary operators",
-                   what="an operator with complex coefficients is evaluated as real part + i * imaginary part (variances add)",
-                   reason="the split / recombination of complex coefficients changed")
+        for terms in samples:
+            op = _QOp()
+            op.terms = dict(terms)
+            probe = _BackendProbe()
+            fo = make_folder(idx, BACKEND, ctors={"QubitOperator": lambda a, k: _QOp(*a, **k)})
+            fo.generic_symbols = True
+            try:
+                got = fo.run_function(g.node, {"self": probe, "qubit_operator": op, "state_prep_circuit": circ, "initial_statevector": "SV0", "desired_meas_result": "01"})
+            except (Undecidable, Raised) as e:
+                raise AnalysisError(f"Backend.{fn} not foldable on {terms}: {e}")
+            want = sum((form(c) * sp.Symbol(sym + repr(t), **({"real": True} if sym == "E" else {"positive": True})) for t, c in terms.items()), sp.Integer(0))
+            val_ok = sp.simplify(sp.nsimplify(got) - want) == 0
+            fwd_ok = bool(probe.calls) and all(c[1] is circ and c[2].get("initial_statevector") == "SV0" and c[2].get("desired_meas_result") == "01" for c in probe.calls)
+            unchanged = op.terms == dict(terms)
+            rep.decide(val_ok and fwd_ok and unchanged, rule, g, g.node, text=f"{fn} with coefficients {list(terms.values())}",
+                       what="an operator with complex coefficients is evaluated by linearity (real part + i * imaginary part; variances add), every inner evaluation "
+                            "receiving the caller's circuit, initial statevector and requested outcome, and the caller's operator is left as it was",
+                       reason=(f"result {got} instead of {want}; " if not val_ok else "") + ("inner evaluation lost an argument; " if not fwd_ok else "") + ("the operator was modified" if not unchanged else ""))
 
 
 # ---------------------------------------------------------------------------------------------------
